@@ -512,6 +512,31 @@ class Enumerator:
                         if not hasattr(sub, "lineno"):
                             ast.copy_location(sub, s)
                 return self.exec_block(body, st)
+        # L.extend(gen(args)) with gen a generator function of the program  ==  for v in gen(args): L.append(v)
+        if isinstance(v, ast.Call) and isinstance(v.func, ast.Attribute) and v.func.attr == "extend" and len(v.args) == 1 and not v.keywords and isinstance(v.args[0], ast.Call) and isinstance(v.func.value, (ast.Name, ast.Attribute)) and self._generator_of(v.args[0], st) is not None and st.depth < self.cfg.max_inline_depth:
+            tmp = f"_xt{getattr(s, 'lineno', 0)}"
+            loop = ast.For(ast.Name(tmp, ast.Store()), v.args[0], [ast.Expr(ast.Call(ast.Attribute(v.func.value, "append", ast.Load()), [ast.Name(tmp, ast.Load())], []))], [], None)
+            ast.copy_location(loop, s)
+            for sub in ast.walk(loop):
+                if not hasattr(sub, "lineno"):
+                    ast.copy_location(sub, s)
+            ast.fix_missing_locations(loop)
+            return self.exec_block([loop], st)
+        # yield from (E for x in it [if c])  ==  for x in it: [if c:] yield E      (a list comprehension likewise, see above)
+        if isinstance(v, ast.YieldFrom) and isinstance(v.value, (ast.GeneratorExp, ast.ListComp)) and not any(g.is_async for g in v.value.generators):
+            comp = v.value
+            body = [ast.Expr(ast.Yield(comp.elt))]
+            for g in reversed(comp.generators):
+                for c in reversed(g.ifs):
+                    body = [ast.If(c, body, [])]
+                body = [ast.For(g.target, g.iter, body, [], None)]
+            for n in body:
+                ast.copy_location(n, s)
+                for sub in ast.walk(n):
+                    if not hasattr(sub, "lineno"):
+                        ast.copy_location(sub, s)
+                ast.fix_missing_locations(n)
+            return self.exec_block(body, st)
         for st2, _t, exc in self.ev(s.value, st):
             out.append((st2, ("raise", exc) if exc else NORMAL))
         return out
@@ -742,7 +767,10 @@ class Enumerator:
         if not isinstance(call, ast.Call) or call.keywords and any(k.arg is None for k in call.keywords):
             return None
         fd = None
-        if isinstance(call.func, ast.Name) and st.module is not None:
+        if isinstance(call.func, ast.Name) and isinstance(st.env.get(call.func.id), ast.FunctionDef):
+            fd = st.env[call.func.id]  # a generator defined in the enclosing function (it sees that frame's names)
+            skip_self = False
+        elif isinstance(call.func, ast.Name) and st.module is not None:
             fi = getattr(st.module, "functions", {}).get(call.func.id)
             fd = fi.node if fi is not None else None
             skip_self = False
@@ -876,6 +904,17 @@ class Enumerator:
                         inner = ast.copy_location(ast.For(s.target.elts[1 - ci_], it0.args[1 - ci_], [ast.copy_location(ast.Assign([s.target.elts[ci_]], it0.args[ci_].args[0]), s)] + s.body, [], None), s)
                         ast.fix_missing_locations(inner)
                         return self.exec_block([inner], st)
+
+                #   for t in filter(f, A): body               ==  for t in A: if f(t): body        (f None: if t)
+                if isinstance(it0, ast.Call) and isinstance(it0.func, ast.Name) and it0.func.id == "filter" and "filter" not in st.env and len(it0.args) == 2 and not it0.keywords and isinstance(s.target, ast.Name):
+                    f_, a_ = s.iter.args if isinstance(s.iter, ast.Call) and len(getattr(s.iter, "args", [])) == 2 else it0.args
+                    test = ast.Name(s.target.id, ast.Load()) if isinstance(f_, ast.Constant) and f_.value is None else ast.Call(f_, [ast.Name(s.target.id, ast.Load())], [])
+                    inner = ast.copy_location(ast.For(s.target, a_, [ast.copy_location(ast.If(test, s.body, []), s)], [], None), s)
+                    for sub in ast.walk(inner):
+                        if not hasattr(sub, "lineno"):
+                            ast.copy_location(sub, s)
+                    ast.fix_missing_locations(inner)
+                    return self.exec_block([inner], st)
 
                 def pure(e):
                     return all(isinstance(n, (ast.Tuple, ast.List, ast.Name, ast.Constant, ast.Attribute, ast.Load, ast.Store)) for n in ast.walk(e))
@@ -1746,6 +1785,11 @@ class Enumerator:
                     mfi = self.P.find_method(rv.func.id, call.func.attr)
                     if mfi is not None:
                         got = (mfi, rv.func.id, rv)  # a method of an immutable value, run on the constructor term
+            if not got and isinstance(call.func, ast.Attribute) and isinstance(call.func.value, ast.Name) and call.func.value.id in self.P.classes and call.func.value.id not in st.env:
+                # Class.factory(...) with factory a classmethod of the program: run with cls bound to that class
+                mfi = self.P.find_method(call.func.value.id, call.func.attr)
+                if mfi is not None and any(isinstance(d, ast.Name) and d.id == "classmethod" for d in mfi.node.decorator_list) and not any(isinstance(n, (ast.Yield, ast.YieldFrom)) for n in ast.walk(mfi.node)):
+                    got = (mfi, call.func.value.id, None)
             if got:
                 target = (*got, False)
         if target and st.depth < self.cfg.max_inline_depth:
@@ -1850,7 +1894,12 @@ class Enumerator:
         )
         if getattr(fi, "explicit_self", False):
             args = args[1:]  # Base.m(self, ...) form
-        if is_method and params:
+        is_classmethod = any(isinstance(d, ast.Name) and d.id == "classmethod" for d in fd.decorator_list)
+        if is_classmethod and params and selfcls:
+            # cls is the class the method was called on
+            env[params[0]] = ast.Name(selfcls, ast.Load())
+            params = params[1:]
+        elif is_method and params:
             first = params[0]
             params = params[1:]
             # the callee's `self` is always spelled `self` inside its frame (its class is st.selfcls, its identity st.selfpath);
